@@ -489,6 +489,17 @@ func (f *frame) callContract(st *State, callee *ssa.Function, cc *Contract, args
 	for _, e := range cc.Ensures {
 		vc.assumeUnder(st.reach, sc.evalBool(e.Expr))
 	}
+	// an atomic step of a function with guarantee clauses: each clause must
+	// hold between the state before and the state after the step
+	if cc.Atomic && f.isTop && f.c != nil && len(f.c.Guarantees) > 0 {
+		gsc := f.specCtx(st, pre)
+		gsc.bound = map[string]*Term{}
+		f.bindParams(gsc)
+		for _, g := range f.c.Guarantees {
+			vc.oblige(st, "guarantee."+g.Name, gsc.evalBool(g.Expr),
+				"guarantee across the atomic step "+short+": "+g.Src, pos, true)
+		}
+	}
 	// type invariants of results
 	assumeInv := func(v Val) {
 		if t, ok := v.(*Term); ok {
